@@ -31,7 +31,7 @@ def do_OP_PICK(vm: Any) -> None:
     >>> print(s)
     [b'a', b'b', b'c', b'd', b'b']
     """
-    v = vm.pop_nonnegative()
+    v = pop_check_bounds_nonnegative(vm)
     vm.append(vm[-v - 1])
 
 
@@ -42,7 +42,7 @@ def do_OP_ROLL(vm: Any) -> None:
     >>> print(s)
     [b'a', b'c', b'd', b'b']
     """
-    v = vm.pop_nonnegative()
+    v = pop_check_bounds_nonnegative(vm)
     vm.append(vm.pop(-v - 1))
 
 
@@ -133,6 +133,15 @@ def pop_check_bounds(vm: Any) -> int:
     if len(vm[-1]) > 4:
         raise ScriptError("overflow in binop", errno.UNKNOWN_ERROR)
     return vm.pop_int()  # type: ignore[no-any-return]
+
+
+def pop_check_bounds_nonnegative(vm: Any) -> int:
+    v = pop_check_bounds(vm)
+    if v < 0:
+        raise ScriptError(
+            "unexpectedly got negative value", errno.INVALID_STACK_OPERATION
+        )
+    return v
 
 
 def make_bin_op(binop: Callable[[int, int], int]) -> Callable[[Any], None]:
